@@ -1547,6 +1547,8 @@ def run(ctx):
 
 
 def replay(ctx, path):
+    if not os.path.exists(path) and os.path.exists(os.path.join(common.VERIF, path)):
+        path = os.path.join(common.VERIF, path)      # main.py has changed directory
     rec = json.load(open(path))
     show = {k: v for k, v in rec.items() if k != 'graph'}
     print(json.dumps(show, indent=1, ensure_ascii=False, default=repr)[:3000])
